@@ -144,7 +144,8 @@ def _has_either_edge(graph: NxMixedGraph, u: Variable, v: Variable) -> bool:
 
 
 def _only_directed_edge(graph: NxMixedGraph, u: Variable, v: Variable) -> bool:
-    return graph.directed.has_edge(u, v) and not graph.undirected.has_edge(u, v)
+    # a bidirected edge next to the directed one does not take the directed edge away
+    return cast(bool, graph.directed.has_edge(u, v))
 
 
 def is_collider(
@@ -163,10 +164,12 @@ def is_collider(
     :param conditions: The conditional variables, denoted as $Z$ in the paper
     :return: If the three nodes form a collider
     """
+    # On a path (no repeated nodes) a collider is open when it is an ancestor of a condition:
+    # the walk that runs down to that condition and back is what the definition allows.
     return (
         _has_either_edge(graph, left, middle)
         and _has_either_edge(graph, right, middle)
-        and middle in conditions
+        and not conditions.isdisjoint(graph.descendants_inclusive(middle))
     )
 
 
